@@ -325,7 +325,10 @@ pub fn run(ctx: &mut Ctx) {
                 let bad = p.bytes(bl);
                 ctx.eval();
                 ctx.class("history_failed_call");
-                let o = if dir == 0 { guard(|| target.encrypt(&bad)) } else { guard(|| target.decrypt(&bad)) };
+                // the direction of the failing call is independent of the direction of the call that follows it
+                let bdir = (p.next() & 1) as u8;
+                ctx.class(&format!("history_failed_{}_then_{}", if bdir == 0 { "enc" } else { "dec" }, if dir == 0 { "enc" } else { "dec" }));
+                let o = if bdir == 0 { guard(|| target.encrypt(&bad)) } else { guard(|| target.decrypt(&bad)) };
                 // how the out-of-domain call itself ends is C20's business; here only its after-effects are judged
                 ctx.class(&format!("history_failed_call:{}", match &o { Outcome::Ret(Err(_)) => "err", Outcome::Ret(Ok(_)) => "ok", _ => "crash" }));
             }
